@@ -34,3 +34,27 @@ theorem second_reset_clobbers :
   simp [run, step, look, setOp, doSet, resetGo, cancel, init, upd, exMem, rset, valueOf, exInt]
 
 end C08F8
+
+/-! ## K-C08-ue-iface — an unexported variable of interface type cannot be mocked by name
+
+The statement one would like: -/
+namespace C08F8
+open Var C08
+
+/-- every value assignable to the variable's type can be set through an unexported-variable mocker -/
+def UeSetForEveryType : Prop :=
+  ∀ (s : State) (i : Nat) (x : Val), (s.mks i).ue = true → assignable x.ty (s.mem (s.mks i).addr).ty = true →
+    (step false s (.set i (some x))).2 = .ok
+
+/-- It fails for every interface-typed variable: the overlay `reflect.NewAt(TypeOf(v))` has the dynamic type, the
+    model (like goom's documentation) calls the result undefined, the real code corrupts the interface word
+    (the check shows the reader crashing).  Witness: the nil `error` variable and a `*T` error.  What *is* proved is
+    `C08.readers_see_last_set` + the restore theorems under `C08L.UeTyped` (value type = variable type). -/
+theorem ueSetForEveryType_false : ¬ UeSetForEveryType := by
+  intro h
+  have := h (run false (init exMem) [.look 0 true 1]) 0 ⟨exPErr, 3⟩
+    (by simp [run, step, look, init, upd])
+    (by simp [run, step, look, init, upd, exMem, assignable, implements, exPErr, exErr, Ty.isIface])
+  simp [run, step, look, setOp, doSet, init, upd, exMem, exPErr, exErr] at this
+
+end C08F8
